@@ -118,6 +118,29 @@ def run(chk, tier, seed):
                 o = common.run(argv, timeout=120)
                 evs.append(dict(e="pair", tag=tag, cmd=cmd[:2], variant=vn, same=1 if (o.out == base.out and o.rc == base.rc) else 0,
                                 rc=base.rc if base.rc is not None else -9, rc2=o.rc if o.rc is not None else -9, clean=1 if o.ok_alphabet() else 0))
+            # the same pairs in other surroundings: COLUMNS exported while stdout is a file (it is then ignored, with or without
+            # --verbose), and a standard error that cannot be written (the diagnostics are lost, the result is not)
+            if cmd[0] in ("cat", "info") and (not quick or hash(tag) % 2 == 0 or cmd[0] == "cat"):
+                for cols in ("20", "39", "132"):
+                    for ui in ((None, "watford") if cmd[0] == "cat" else (None,)):
+                        pre = ["--ui", ui] if ui else []
+                        b2 = common.run([dfs] + pre + ["--file", path] + cmd, timeout=60, env={"COLUMNS": cols})
+                        o = common.run([dfs, "--verbose"] + pre + ["--file", path] + cmd, timeout=120, env={"COLUMNS": cols})
+                        evs.append(dict(e="pair", tag=tag, cmd=cmd[:2], variant="verbose COLUMNS=%s ui=%s" % (cols, ui), same=1 if (o.out == b2.out and o.rc == b2.rc) else 0,
+                                        rc=b2.rc if b2.rc is not None else -9, rc2=o.rc if o.rc is not None else -9, clean=1 if o.ok_alphabet() else 0))
+            if cmd[0] in ("cat", "info", "type", "free"):
+                def run_errfull(argv):
+                    with open("/dev/full", "wb") as ef:
+                        try:
+                            p_ = subprocess.run(argv, stdout=subprocess.PIPE, stderr=ef, stdin=subprocess.DEVNULL, timeout=120)
+                            return p_.returncode, p_.stdout
+                        except subprocess.TimeoutExpired:
+                            return -9, b""
+                rc0, out0 = run_errfull([dfs, "--file", path] + cmd)
+                for vn, argv in (("verbose stderr=/dev/full", [dfs, "--verbose", "--file", path] + cmd),
+                                 ("show-config stderr=/dev/full", [dfs, "--show-config", "--file", path] + cmd)):
+                    rc1, out1 = run_errfull(argv)
+                    evs.append(dict(e="pair", tag=tag, cmd=cmd[:2], variant=vn, same=1 if (out1 == out0 and rc1 == rc0) else 0, rc=rc0, rc2=rc1, clean=1 if rc1 in (0, 1, 2) else 0))
             if cmd[0] == "cat" and base.rc == 0:
                 drive_variant = "opus" if tag == "opus" else None
                 ref = None
